@@ -26,98 +26,125 @@ type relayEntry struct {
 	DownstreamID   uint64 // ID space of the downstream peer connection (allocated locally)
 }
 
+// relayKey identifies one end of a relayed stream: stream IDs are allocated
+// per peer connection, so the same number is used independently by every
+// neighbour and is only unique together with the peer it belongs to.
+type relayKey struct {
+	peer identity.AgentID
+	id   uint64
+}
+
 // relayTable is a thread-safe bidirectional index of relay entries keyed
-// by both upstream and downstream stream IDs. It is used by the TCP, UDP,
-// and ICMP relay handlers, which all share the same shape.
+// by (upstream peer, upstream stream ID) and (downstream peer, downstream
+// stream ID). It is used by the TCP, UDP, and ICMP relay handlers, which all
+// share the same shape.
 //
 // Invariant: every entry is always indexed under BOTH byUpstream and
 // byDownstream. All mutators preserve this; future mutators must too.
 // DeleteByPeer relies on it to walk only one map.
 type relayTable struct {
 	mu           sync.RWMutex
-	byUpstream   map[uint64]*relayEntry
-	byDownstream map[uint64]*relayEntry
+	byUpstream   map[relayKey]*relayEntry
+	byDownstream map[relayKey]*relayEntry
 }
 
 // newRelayTable returns an empty relay table ready for use.
 func newRelayTable() *relayTable {
 	return &relayTable{
-		byUpstream:   make(map[uint64]*relayEntry),
-		byDownstream: make(map[uint64]*relayEntry),
+		byUpstream:   make(map[relayKey]*relayEntry),
+		byDownstream: make(map[relayKey]*relayEntry),
 	}
 }
+
+func (e *relayEntry) upKey() relayKey   { return relayKey{e.UpstreamPeer, e.UpstreamID} }
+func (e *relayEntry) downKey() relayKey { return relayKey{e.DownstreamPeer, e.DownstreamID} }
 
 // Insert adds an entry under both upstream and downstream keys.
 func (r *relayTable) Insert(e *relayEntry) {
 	r.mu.Lock()
-	r.byUpstream[e.UpstreamID] = e
-	r.byDownstream[e.DownstreamID] = e
+	r.byUpstream[e.upKey()] = e
+	r.byDownstream[e.downKey()] = e
 	r.mu.Unlock()
 }
 
 // Delete removes the entry from both indices. Idempotent.
 func (r *relayTable) Delete(e *relayEntry) {
 	r.mu.Lock()
-	delete(r.byUpstream, e.UpstreamID)
-	delete(r.byDownstream, e.DownstreamID)
+	delete(r.byUpstream, e.upKey())
+	delete(r.byDownstream, e.downKey())
 	r.mu.Unlock()
 }
 
-// LookupBoth returns the entries (if any) where streamID matches the
-// upstream and downstream IDs respectively. The streamID number space is
-// per-peer-connection so the two indices can be hit by different entries
-// using the same numeric value; callers disambiguate by checking the
-// frame's source peer against UpstreamPeer / DownstreamPeer.
-func (r *relayTable) LookupBoth(streamID uint64) (up, down *relayEntry) {
+// LookupBoth returns the entry whose upstream end is (peer, streamID) and
+// the entry whose downstream end is (peer, streamID), i.e. the relay the
+// frame belongs to when it arrived from the upstream resp. downstream side.
+// At most one of the two is non-nil for a well-behaved peer.
+func (r *relayTable) LookupBoth(streamID uint64, peer identity.AgentID) (up, down *relayEntry) {
+	k := relayKey{peer, streamID}
 	r.mu.RLock()
-	up = r.byUpstream[streamID]
-	down = r.byDownstream[streamID]
+	up = r.byUpstream[k]
+	down = r.byDownstream[k]
 	r.mu.RUnlock()
 	return up, down
 }
 
-// LookupDownstream returns the entry whose DownstreamID == streamID, or nil.
-// Used by ACK handlers, where the response always comes back over the
-// downstream peer connection.
-func (r *relayTable) LookupDownstream(streamID uint64) *relayEntry {
+// LookupDownstreamFrom returns the entry whose downstream end is
+// (peer, streamID), or nil. Used by ACK handlers, where the response always
+// comes back over the downstream peer connection.
+func (r *relayTable) LookupDownstreamFrom(streamID uint64, peer identity.AgentID) *relayEntry {
 	r.mu.RLock()
-	e := r.byDownstream[streamID]
+	e := r.byDownstream[relayKey{peer, streamID}]
 	r.mu.RUnlock()
 	return e
 }
 
-// PopDownstreamFromPeer atomically looks up an entry by DownstreamID, checks
-// that the downstream peer matches `peer`, and removes it from both indices
-// if so. Returns nil if no matching entry exists. Used by *_OPEN_ERR handlers.
+// LookupDownstream returns some entry whose DownstreamID == streamID, or nil.
+// The number alone does not identify a relay (see relayKey); frame handlers
+// must use LookupDownstreamFrom. Kept for diagnostics.
+func (r *relayTable) LookupDownstream(streamID uint64) *relayEntry {
+	r.mu.RLock()
+	defer r.mu.RUnlock()
+	for k, e := range r.byDownstream {
+		if k.id == streamID {
+			return e
+		}
+	}
+	return nil
+}
+
+// PopDownstreamFromPeer atomically looks up the entry whose downstream end is
+// (peer, streamID) and removes it from both indices. Returns nil if no such
+// entry exists. Used by *_OPEN_ERR handlers.
 func (r *relayTable) PopDownstreamFromPeer(streamID uint64, peer identity.AgentID) *relayEntry {
 	r.mu.Lock()
 	defer r.mu.Unlock()
-	e := r.byDownstream[streamID]
-	if e == nil || e.DownstreamPeer != peer {
+	e := r.byDownstream[relayKey{peer, streamID}]
+	if e == nil {
 		return nil
 	}
-	delete(r.byUpstream, e.UpstreamID)
-	delete(r.byDownstream, e.DownstreamID)
+	delete(r.byUpstream, e.upKey())
+	delete(r.byDownstream, e.downKey())
 	return e
 }
 
-// PopMatchingPeer atomically looks up an entry whose direction matches the
-// frame's source peer, removes it from both indices, and returns it. The
-// fromUpstream return flag is true when streamID matched on the upstream
-// side (i.e., the close/reset originated from the upstream peer), false
-// when it matched on the downstream side. Returns (nil, false) if no
-// entry's peer matches.
+// PopMatchingPeer atomically looks up the entry one of whose ends is
+// (peer, streamID), removes it from both indices, and returns it. The
+// fromUpstream return flag is true when (peer, streamID) is the entry's
+// upstream end (i.e., the close/reset originated from the upstream peer),
+// false when it is the downstream end. Returns (nil, false) if there is no
+// such entry.
 func (r *relayTable) PopMatchingPeer(streamID uint64, peer identity.AgentID) (entry *relayEntry, fromUpstream bool) {
+	k := relayKey{peer, streamID}
 	r.mu.Lock()
 	defer r.mu.Unlock()
-	if up := r.byUpstream[streamID]; up != nil && up.UpstreamPeer == peer {
-		delete(r.byUpstream, up.UpstreamID)
-		delete(r.byDownstream, up.DownstreamID)
+	if up := r.byUpstream[k]; up != nil {
+		delete(r.byUpstream, up.upKey())
+		delete(r.byDownstream, up.downKey())
 		return up, true
 	}
-	if down := r.byDownstream[streamID]; down != nil && down.DownstreamPeer == peer {
-		delete(r.byUpstream, down.UpstreamID)
-		delete(r.byDownstream, down.DownstreamID)
+	if down := r.byDownstream[k]; down != nil {
+		delete(r.byUpstream, down.upKey())
+		delete(r.byDownstream, down.downKey())
 		return down, false
 	}
 	return nil, false
@@ -130,10 +157,10 @@ func (r *relayTable) DeleteByPeer(peer identity.AgentID) int {
 	r.mu.Lock()
 	defer r.mu.Unlock()
 	var n int
-	for id, e := range r.byUpstream {
+	for k, e := range r.byUpstream {
 		if e.UpstreamPeer == peer || e.DownstreamPeer == peer {
-			delete(r.byUpstream, id)
-			delete(r.byDownstream, e.DownstreamID)
+			delete(r.byUpstream, k)
+			delete(r.byDownstream, e.downKey())
 			n++
 		}
 	}
